@@ -383,13 +383,15 @@ def run_case(case):
         idx = {k: py(v) for k, v in p["idx"].items()}
         indexing = "position" if op in ("ix", "isel") else "label"
         kw = {"keepdims": True} if p.get("keepdims") else {}
-        call = {"take": lambda: ds.take(indices=dict(idx), **kw), "loc": lambda: ds.loc[dict(idx)], "sel": lambda: ds.sel(**idx),
-                "ix": lambda: ds.ix[dict(idx)], "isel": lambda: ds.isel(**idx)}[op]
+        idx_arg = dict(idx)     # the mapping handed to the dataset is an argument: it comes back as it was
+        call = {"take": lambda: ds.take(indices=idx_arg, **kw), "loc": lambda: ds.loc[idx_arg], "sel": lambda: ds.sel(**idx),
+                "ix": lambda: ds.ix[idx_arg], "isel": lambda: ds.isel(**idx)}[op]
         expected = []
         for k in keys:
             sub = {dd: i for dd, i in idx.items() if dd in ds[k].dims}
             expected.append((k, lib(lambda: fresh[k].take(dict(sub), indexing=indexing, **kw) if sub or True else ds[k], what="per-variable " + what, sig=sig)))
         res = lib(call, what=what, sig=sig)
+        check(list(idx_arg.keys()) == list(idx.keys()) and all(idx_arg[k_] is idx[k_] for k_ in idx), "index-mapping-modified", {"what": what, "now": core.jsonable(list(idx_arg.keys()))}, sig)
         check_result(res, expected, what, sig, ds_attrs=DS_ATTRS)
         nontrivial = len(keys) >= 2 and any(any(dd not in ds[k].dims for dd in idx) for k in keys)
         if nontrivial:
